@@ -1,0 +1,104 @@
+//go:build verif
+// +build verif
+
+package verifmap
+
+import (
+	"fmt"
+	"reflect"
+	"sort"
+)
+
+// Policy, when set, is asked for every rewritten map loop with at least two keys. It returns the order in which
+// the keys, sorted ascending, are to be visited (a permutation of 0..n-1), or nil to keep the order Go's own
+// iteration produced (the simulator answers for the node whose call is in flight).
+var Policy func(site string, n int) []int
+
+// Arrange reorders *keys (a pointer to a slice holding all keys of a map, collected by a native range) as
+// Policy dictates. With no policy installed the slice is left as it is, i.e. in Go's native order.
+func Arrange(site string, keys interface{}) {
+	if Policy == nil {
+		return
+	}
+	v := reflect.ValueOf(keys)
+	if v.Kind() != reflect.Ptr || v.Elem().Kind() != reflect.Slice {
+		return
+	}
+	s := v.Elem()
+	n := s.Len()
+	if n < 2 {
+		return
+	}
+	perm := Policy(site, n)
+	if len(perm) != n {
+		return
+	}
+	swap := reflect.Swapper(s.Interface())
+	sort.Sort(&sorter{s: s, swap: swap})
+	out := reflect.MakeSlice(s.Type(), n, n)
+	seen := make([]bool, n)
+	for i, p := range perm {
+		if p < 0 || p >= n || seen[p] {
+			return // not a permutation: keep ascending order
+		}
+		seen[p] = true
+		out.Index(i).Set(s.Index(p))
+	}
+	s.Set(out)
+}
+
+type sorter struct {
+	s    reflect.Value
+	swap func(i, j int)
+}
+
+func (x *sorter) Len() int           { return x.s.Len() }
+func (x *sorter) Swap(i, j int)      { x.swap(i, j) }
+func (x *sorter) Less(i, j int) bool { return less(x.s.Index(i), x.s.Index(j)) }
+
+func less(a, b reflect.Value) bool {
+	switch a.Kind() {
+	case reflect.String:
+		return a.String() < b.String()
+	case reflect.Int, reflect.Int8, reflect.Int16, reflect.Int32, reflect.Int64:
+		return a.Int() < b.Int()
+	case reflect.Uint, reflect.Uint8, reflect.Uint16, reflect.Uint32, reflect.Uint64, reflect.Uintptr:
+		return a.Uint() < b.Uint()
+	case reflect.Float32, reflect.Float64:
+		return a.Float() < b.Float()
+	case reflect.Bool:
+		return !a.Bool() && b.Bool()
+	case reflect.Array:
+		for i := 0; i < a.Len(); i++ {
+			if less(a.Index(i), b.Index(i)) {
+				return true
+			}
+			if less(b.Index(i), a.Index(i)) {
+				return false
+			}
+		}
+		return false
+	case reflect.Struct:
+		for i := 0; i < a.NumField(); i++ {
+			if less(a.Field(i), b.Field(i)) {
+				return true
+			}
+			if less(b.Field(i), a.Field(i)) {
+				return false
+			}
+		}
+		return false
+	case reflect.Interface, reflect.Ptr:
+		if a.IsNil() || b.IsNil() {
+			return a.IsNil() && !b.IsNil()
+		}
+		if a.Kind() == reflect.Interface {
+			ea, eb := a.Elem(), b.Elem()
+			if ea.Type() == eb.Type() {
+				return less(ea, eb)
+			}
+			return ea.Type().String() < eb.Type().String()
+		}
+	}
+	return fmt.Sprint(a.Interface()) < fmt.Sprint(b.Interface())
+}
